@@ -137,4 +137,246 @@ theorem setCol_coherent (t : Tbl) (h : Coherent t) (name : String) (vals : List 
       · exact keep _ (lookupA_insert_other _ _ _ _ hn) _ rfl rfl rfl
       · exact keep _ (lookupA_insert_other _ _ _ _ hn) _ rfl rfl rfl
 
+
+/-! ### look-ups only ever touch the cache -/
+
+/-- `t'` is `t` with a (still coherent) cache: same columns, same index, same listed names -/
+def Keeps (t t' : Tbl) : Prop :=
+  Coherent t' ∧ t'.data = t.data ∧ t'.index = t.index ∧ t'.colNames = t.colNames ∧
+  t'.sepCount = t.sepCount ∧ t'.sepPrev = t.sepPrev ∧ t'.sepNext = t.sepNext
+
+theorem Keeps.refl {t : Tbl} (h : Coherent t) : Keeps t t := ⟨h, rfl, rfl, rfl, rfl, rfl, rfl⟩
+
+theorem Keeps.trans {a b c : Tbl} (h1 : Keeps a b) (h2 : Keeps b c) : Keeps a c :=
+  ⟨h2.1, h2.2.1.trans h1.2.1, h2.2.2.1.trans h1.2.2.1, h2.2.2.2.1.trans h1.2.2.2.1,
+   h2.2.2.2.2.1.trans h1.2.2.2.2.1, h2.2.2.2.2.2.1.trans h1.2.2.2.2.2.1, h2.2.2.2.2.2.2.trans h1.2.2.2.2.2.2⟩
+
+theorem Keeps.indexCol {t t' : Tbl} (h : Keeps t t') : t'.indexCol = t.indexCol := indexCol_of_data h.2.1 h.2.2.1
+
+theorem getCache_keeps (t : Tbl) (h : Coherent t) : Keeps t (getCache t).1 := by
+  have hc := getCache_coherent t h
+  unfold getCache at hc ⊢
+  cases hcache : t.cache with
+  | some c => simp only [hcache]; exact Keeps.refl h
+  | none =>
+    simp only [hcache] at hc ⊢
+    exact ⟨hc, rfl, rfl, rfl, rfl, rfl, rfl⟩
+
+theorem getRowCache_keeps (t : Tbl) (h : Coherent t) (row : String) (count : Option Int) (offset : Int) :
+    Keeps t (getRowCache t row count offset).1 := by
+  have hk := getCache_keeps t h
+  unfold getRowCache
+  generalize getCache t = g at hk
+  obtain ⟨t1, cache, cnt⟩ := g
+  simp only at hk ⊢
+  split
+  · exact hk
+  · split <;> (try split) <;> exact hk
+
+theorem getRowCacheRaise_keeps (t : Tbl) (h : Coherent t) (row : String) (count : Option Int) (offset : Int) :
+    Keeps t (getRowCacheRaise t row count offset).1 := by
+  have hk := getRowCache_keeps t h row count offset
+  unfold getRowCacheRaise
+  generalize getRowCache t row count offset = r at hk
+  obtain ⟨t1, x⟩ := r
+  cases x with
+  | error e => exact hk
+  | ok o => cases o <;> exact hk
+
+theorem getRowIndex_keeps (t : Tbl) (h : Coherent t) (row : Row) : Keeps t (getRowIndex t row).1 := by
+  cases row with
+  | pos i => exact Keeps.refl h
+  | name s =>
+    simp only [getRowIndex]
+    split
+    · exact Keeps.refl h
+    · exact getRowCacheRaise_keeps t h _ _ _
+  | tup n c o => exact getRowCacheRaise_keeps t h _ _ _
+
+theorem resolveCellRow_keeps (t : Tbl) (h : Coherent t) (row : Row) : Keeps t (resolveCellRow t row).1 := by
+  have hk := getCache_keeps t h
+  cases row with
+  | pos i => exact Keeps.refl h
+  | name s =>
+    simp only [resolveCellRow]
+    generalize getCache t = g at hk
+    obtain ⟨t1, cache, cnt⟩ := g
+    simp only at hk ⊢
+    split
+    · exact hk
+    · split
+      · exact hk
+      · exact hk.trans (getRowCacheRaise_keeps t1 hk.1 _ _ _)
+  | tup n c o =>
+    simp only [resolveCellRow]
+    generalize getCache t = g at hk
+    obtain ⟨t1, cache, cnt⟩ := g
+    simp only at hk ⊢
+    split
+    · exact hk
+    · exact hk.trans (getRowCacheRaise_keeps t1 hk.1 _ _ _)
+
+/-- **C07, look-up by tuple through the public entry point**: `rows.get_index((name, count, offset))` on a
+    coherent table is the scan of the current index column, `KeyError` when there is no such occurrence -/
+theorem getRowIndex_scan (t : Tbl) (h : Coherent t) (name : String) (count : Int) (offset : Option Int) :
+    (getRowIndex t (.tup name count offset)).2 =
+      match scanLookup t.indexCol name count (offset.getD 0) with
+      | some i => .ok i
+      | none => .error .keyError := by
+  have hs := getRowCache_scan t h name count (offset.getD 0)
+  simp only [getRowIndex, getRowCacheRaise]
+  generalize getRowCache t name (some count) (offset.getD 0) = r at hs
+  obtain ⟨t1, x⟩ := r
+  simp only at hs
+  subst hs
+  cases scanLookup t.indexCol name count (offset.getD 0) <;> rfl
+
+theorem indexCol_insert_other (t t' : Tbl) (col : String) (nv : List Cell) (hd : t'.data = insertA t.data col nv)
+    (hi : t'.index = t.index) (hc : col ≠ t.index) : t'.indexCol = t.indexCol := by
+  unfold Tbl.indexCol Tbl.col
+  rw [hd, hi, lookupA_insert_other _ _ _ _ hc]
+
+/-- a cell assignment — by position, by name or by tuple, in the index column or elsewhere — keeps the cache
+    coherent (a write into the index column drops it) -/
+theorem setCell_coherent (t : Tbl) (h : Coherent t) (col : String) (row : Row) (v : Cell) :
+    Coherent (setCell t col row v).1 := by
+  have hk := resolveCellRow_keeps t h row
+  unfold setCell
+  split
+  · exact h
+  · generalize resolveCellRow t row = r at hk
+    obtain ⟨t1, x⟩ := r
+    simp only at hk ⊢
+    cases x with
+    | error e => exact hk.1
+    | ok i =>
+      simp only
+      split
+      · exact hk.1
+      · by_cases hc : col = t.index
+        · simp only [hc, if_true]; exact Or.inl rfl
+        · simp only [hc, if_false]
+          have hc' : col ≠ t1.index := by rw [hk.2.2.1]; exact hc
+          rcases hk.1 with h1 | h1
+          · left; exact h1
+          · right
+            simp only
+            rw [h1]
+            refine congrArg (fun c => some (makeCache c)) (Eq.symm ?_)
+            exact indexCol_insert_other t1 _ col _ rfl rfl hc'
+
+/-- deleting a column drops it from the data; the cache stays coherent unless it is the index column, in
+    which case no name resolves any more (the scan of an absent column is empty) -/
+theorem delCol_coherent (t : Tbl) (h : Coherent t) (name : String) (hn : name ≠ t.index) :
+    Coherent (delCol t name).1 := by
+  unfold delCol
+  have key : ∀ t' : Tbl, t'.index = t.index → t'.cache = t.cache →
+      lookupA t'.data t.index = lookupA t.data t.index → Coherent t' := by
+    intro t' h2 h3 hd
+    have : t'.indexCol = t.indexCol := by
+      unfold Tbl.indexCol Tbl.col; rw [h2, hd]
+    rcases h with h | h
+    · left; rw [h3, h]
+    · right; rw [h3, h, this]
+  split
+  · exact key _ rfl rfl rfl
+  · refine key _ rfl rfl ?_
+    simp only
+    induction t.data with
+    | nil => rfl
+    | cons p r ih =>
+      simp only [List.filter_cons]
+      by_cases hp : p.1 = name
+      · have : p.1 ≠ t.index := fun e => hn (hp ▸ e)
+        simp only [hp, ne_eq, not_true_eq_false, decide_false, Bool.false_eq_true, if_false]
+        rw [ih]
+        simp only [lookupA]
+        rw [if_neg this]
+      · simp only [ne_eq, hp, not_false_eq_true, decide_true, if_true, lookupA]
+        split
+        · rfl
+        · exact ih
+
+
+/-! ### every history of API calls -/
+
+/-- the table API the property quantifies over -/
+inductive TOp where
+  | setCol (name : String) (vals : List Cell)          -- `t[name] = column`, `t.name = column`, new columns
+  | setCell (col : String) (row : Row) (v : Cell)      -- `t[col, row] = v`, row by position / name / tuple
+  | delCol (name : String)                             -- `del t[name]`
+  | getIndex (row : Row)                               -- `t.rows.get_index(row)`, `t // row`
+  | getCell (col : String) (row : Row)                 -- `t[col, row]`
+
+def applyTOp (t : Tbl) : TOp → Tbl
+  | .setCol n v => (setCol t n v).1
+  | .setCell c r v => (setCell t c r v).1
+  | .delCol n => (delCol t n).1
+  | .getIndex r => (getRowIndex t r).1
+  | .getCell c r => (getCell t c r).1
+
+/-- the index column's *name* never changes -/
+theorem applyTOp_index (t : Tbl) (op : TOp) (h : Coherent t) : (applyTOp t op).index = t.index := by
+  cases op with
+  | setCol n v =>
+    simp only [applyTOp, setCol]
+    repeat' split
+    all_goals rfl
+  | setCell c r v =>
+    have hk := resolveCellRow_keeps t h r
+    simp only [applyTOp, setCell]
+    split
+    · rfl
+    · generalize resolveCellRow t r = x at hk
+      obtain ⟨t1, y⟩ := x
+      cases y with
+      | error e => exact hk.2.2.1
+      | ok i =>
+        simp only
+        split
+        · exact hk.2.2.1
+        · split <;> exact hk.2.2.1
+  | delCol n => simp only [applyTOp, delCol]; split <;> rfl
+  | getIndex r => exact (getRowIndex_keeps t h r).2.2.1
+  | getCell c r =>
+    have hk := resolveCellRow_keeps t h r
+    simp only [applyTOp, getCell]
+    split
+    · rfl
+    · generalize resolveCellRow t r = x at hk
+      obtain ⟨t1, y⟩ := x
+      cases y with
+      | error e => exact hk.2.2.1
+      | ok i => simp only; split <;> exact hk.2.2.1
+
+theorem applyTOp_coherent (t : Tbl) (op : TOp) (h : Coherent t)
+    (hdel : ∀ n, op = .delCol n → n ≠ t.index) : Coherent (applyTOp t op) := by
+  cases op with
+  | setCol n v => exact setCol_coherent t h n v
+  | setCell c r v => exact setCell_coherent t h c r v
+  | delCol n => exact delCol_coherent t h n (hdel n rfl)
+  | getIndex r => exact (getRowIndex_keeps t h r).1
+  | getCell c r =>
+    have hk := resolveCellRow_keeps t h r
+    simp only [applyTOp, getCell]
+    split
+    · exact h
+    · generalize resolveCellRow t r = x at hk
+      obtain ⟨t1, y⟩ := x
+      cases y with
+      | error e => exact hk.1
+      | ok i => simp only; split <;> exact hk.1
+
+/-- **C07 over histories**: after any sequence of API calls (the index column itself is never deleted) the
+    cache, if present, is the one a fresh pass over the current index column builds -/
+theorem history_coherent : ∀ (ops : List TOp) (t : Tbl), Coherent t →
+    (∀ n, TOp.delCol n ∈ ops → n ≠ t.index) → Coherent (ops.foldl applyTOp t)
+  | [], t, h, _ => h
+  | op :: ops, t, h, hdel => by
+    have h1 := applyTOp_coherent t op h (fun n e => hdel n (e ▸ List.mem_cons_self ..))
+    refine history_coherent ops _ h1 ?_
+    intro n hn
+    rw [applyTOp_index t op h]
+    exact hdel n (List.mem_cons_of_mem _ hn)
+
 end TableM
